@@ -85,3 +85,141 @@ Definition add_child_consistent_stmt : Prop := forall pid c from t t' p,
 
 Definition mark_completed_consistent_stmt : Prop := forall t,
   check_consistency t = 0 -> check_consistency (mark_completed t) = 0.
+
+(* ---- what de-duplication does to the tree (added for Stage/PassProofs.v) ----
+   [prune dead t]: drop every non-root node whose id is marked dead.  In the state in which
+   preprocess calls DedupeItems, de-duplication drops only Fresh nodes (which are leaves) and
+   then marks completed: nothing else in the tree changes. *)
+Fixpoint prune (dead : N -> bool) (t : item) : item :=
+  match t with
+  | Node i cs => Node i (filter (fun c => negb (dead (id_of c))) (map (prune dead) cs))
+  end.
+
+Definition dedupe_prune_stmt : Prop := forall t,
+  Inv0 t ->
+  exists dead,
+    (forall n, In n (nonseed_nodes t) -> dead (id_of n) = true -> is_fresh_node n = true)
+    /\ dedupe t = mark_completed (prune dead t).
+
+(* ================================================================================== *)
+(* C11: every sequence of operations the stages perform keeps the tree well-formed     *)
+(* ================================================================================== *)
+(* Well-formed = what the property demands: unique ids and CheckConsistency() == nil.  (Symmetric
+   parent/child links hold in the model by construction; the driver checks the pointer side.)
+   "Fresh nodes are leaves" is not a separate side invariant: it follows from rule 4 of
+   CheckConsistency ([WF_fresh_leaves_stmt]). *)
+Definition WF (t : item) : Prop := NoDup (ids t) /\ check_consistency t = 0.
+
+Definition WF_fresh_leaves_stmt : Prop := forall t, WF t -> fresh_leaves t = true.
+
+(* NormalizeURL rewrites the URL of a node in place (same function as Stage/Pass.v set_url_of) *)
+Definition set_url_at (id u : N) (t : item) : item :=
+  update id (fun n => match n with Node i cs => Node (set_url u i) cs end) t.
+
+(* the status changes the stages make on a node they work on (all of them on nodes at the
+   working depth = max depth, i.e. leaves):
+     Fresh -> Failed        preprocessor.go:171 (seed, NormalizeURL error), :283 (http.NewRequest error)
+     Fresh -> Completed     preprocessor.go:198, :218 (seed excluded by the include/exclude filters)
+     Fresh -> Seen          preprocessor/seencheck/seencheck.go:115, source/hq/seencheck.go:83
+     Fresh -> PreProcessed  preprocessor.go:306
+     PreProcessed -> Archived  archiver.go:359
+     PreProcessed -> Failed    archiver.go:276, :314, :341
+     Archived -> Completed  postprocessor/item.go:38 (max redirects), :79 :83 :87 (depth / html asset /
+                            assets disabled), :177 (no children, no redirection) *)
+Definition stage_transition (from to : status) : bool :=
+  match from, to with
+  | Fresh, PreProcessed | Fresh, Seen | Fresh, Failed | Fresh, Completed => true
+  | PreProcessed, Archived | PreProcessed, Failed => true
+  | Archived, Completed => true
+  | _, _ => false
+  end.
+
+Inductive sop :=
+| SAddAsset (pid cid url hops : N)          (* postprocessor/item.go:127  item.AddChild(NewItem(uuid, asset, ""), ItemGotChildren) *)
+| SAddRedirect (pid cid url hops redir : N) (* postprocessor/item.go:50   item.AddChild(NewItem(uuid, location, ""), ItemGotRedirected) *)
+| SRemove (pid cid : N)                     (* preprocessor.go:178 :194 :214 :227  items[i].GetParent().RemoveChild(items[i]) *)
+| SSetStatus (id : N) (s : status)          (* item.SetStatus(s), see [stage_transition] *)
+| SSetUrl (id u : N)                        (* preprocessor.go:168 :175 NormalizeURL *)
+| SSeedDone                                 (* preprocessor.go:242 :274  seed.SetStatus(ItemCompleted) *)
+| SDedupe                                   (* preprocessor.go:233  seed.DedupeItems() *)
+| SMarkCompleted                            (* markCompleted(seed) (inside DedupeItems / CompleteAndCheck) *)
+| SComplete.                                (* finisher.go:126  seed.CompleteAndCheck() *)
+
+Definition apply_op (t : item) (o : sop) : item :=
+  match o with
+  | SAddAsset pid cid url hops =>
+    match add_child pid (new_child cid url hops 0 false) GotChildren t with Some t' => t' | None => t end
+  | SAddRedirect pid cid url hops redir =>
+    match add_child pid (new_child cid url hops redir false) GotRedirected t with Some t' => t' | None => t end
+  | SRemove pid cid => remove_child pid cid t
+  | SSetStatus id s => set_status id s t
+  | SSetUrl id u => set_url_at id u t
+  | SSeedDone => set_status (id_of t) Completed t
+  | SDedupe => dedupe t
+  | SMarkCompleted => mark_completed t
+  | SComplete => fst (complete_and_check t)
+  end.
+
+(* The guard of an operation = the condition under which the real stage performs it.
+   - SAddAsset: the id is new (uuid.New()); the parent is the node postprocessItem works on, which is
+     Archived (postprocessor/item.go:24 returns otherwise) when the first asset is added and GotChildren for the
+     following ones (AddChild sets it).
+   - SAddRedirect: new id; the parent is Archived (same check; the redirect branch returns right after).
+   - SSetStatus: the node exists and the change is one of [stage_transition].
+   - SSeedDone: no child of the seed is Fresh.  At the call sites no node is left at the working
+     depth (resp. no Fresh one), and by the level discipline (Stage/PassSpec.v level_ok) Fresh nodes
+     exist at the working depth only.
+   - SRemove, SSetUrl, SDedupe, SMarkCompleted, SComplete need no guard at all for well-formedness:
+     they keep ANY tree with unique ids and a passing CheckConsistency in that state. *)
+Definition op_guard (o : sop) (t : item) : Prop :=
+  match o with
+  | SAddAsset pid cid _ _ =>
+    ~ In cid (ids t) /\
+    exists p, In p (flatten t) /\ id_of p = pid /\ (st_of p = Archived \/ st_of p = GotChildren)
+  | SAddRedirect pid cid _ _ _ =>
+    ~ In cid (ids t) /\ exists p, In p (flatten t) /\ id_of p = pid /\ st_of p = Archived
+  | SSetStatus id s =>
+    exists n, In n (flatten t) /\ id_of n = id /\ stage_transition (st_of n) s = true
+  | SSeedDone => forallb (fun c => negb (is_fresh_node c)) (kids t) = true
+  | SRemove _ _ | SSetUrl _ _ | SDedupe | SMarkCompleted | SComplete => True
+  end.
+
+(* every operation of the sequence is performed in a state in which its guard holds *)
+Fixpoint ops_ok (ops : list sop) (t : item) : Prop :=
+  match ops with
+  | [] => True
+  | o :: r => op_guard o t /\ ops_ok r (apply_op t o)
+  end.
+
+Definition ops_preserve_wf_stmt : Prop := forall ops t,
+  WF t -> ops_ok ops t -> WF (fold_left apply_op ops t).
+
+(* ... and in every intermediate state *)
+Definition ops_preserve_wf_all_stmt : Prop := forall ops t,
+  WF t -> ops_ok ops t -> forall k, WF (fold_left apply_op (firstn k ops) t).
+
+(* executable guard (used for the non-vacuity examples); sound for [op_guard] *)
+Definition find_node (id : N) (t : item) : option item :=
+  find (fun n => N.eqb (id_of n) id) (flatten t).
+Definition op_guardb (o : sop) (t : item) : bool :=
+  match o with
+  | SAddAsset pid cid _ _ =>
+    negb (existsb (N.eqb cid) (ids t)) &&
+    match find_node pid t with
+    | Some p => status_eqb (st_of p) Archived || status_eqb (st_of p) GotChildren
+    | None => false
+    end
+  | SAddRedirect pid cid _ _ _ =>
+    negb (existsb (N.eqb cid) (ids t)) &&
+    match find_node pid t with Some p => status_eqb (st_of p) Archived | None => false end
+  | SSetStatus id s =>
+    match find_node id t with Some n => stage_transition (st_of n) s | None => false end
+  | SSeedDone => forallb (fun c => negb (is_fresh_node c)) (kids t)
+  | SRemove _ _ | SSetUrl _ _ | SDedupe | SMarkCompleted | SComplete => true
+  end.
+Fixpoint ops_okb (ops : list sop) (t : item) : bool :=
+  match ops with
+  | [] => true
+  | o :: r => op_guardb o t && ops_okb r (apply_op t o)
+  end.
+Definition ops_okb_sound_stmt : Prop := forall ops t, ops_okb ops t = true -> ops_ok ops t.
